@@ -13,10 +13,19 @@ def _eq_attrs(x, y, attrs):
 
 def _number(x):
     """
-    a numpy number as the python number it holds. 
-    np.float64(2**53) == 2**53 + 1 since numpy rounds the int to a float, while python compares an int and a float exactly; np.float32('nan') is not a float
+    a numpy number as the python number it holds, a numpy datetime64 / timedelta64 as the pandas Timestamp / Timedelta (or NaT) it holds.
+    np.float64(2**53) == 2**53 + 1 since numpy rounds the int to a float, while python compares an int and a float exactly; np.float32('nan') is not a float.
+    numpy compares times after casting units: np.datetime64('2020-01-01') == date(2020,1,1) and == pd.Timestamp('2020-01-01') although these two differ, 
+    np.timedelta64(1,'D') == 1 and == np.timedelta64(24,'h'), which is == 24; np.datetime64('NaT') is not even equal to itself while pd.NaT is a single object
     """
-    return x.item() if isinstance(x, np.number) and not isinstance(x, np.timedelta64) else x
+    if isinstance(x, (np.datetime64, np.timedelta64)):
+        if np.datetime_data(x.dtype)[0] in ('ps', 'fs', 'as'): # pandas would truncate to nanoseconds
+            return x
+        try:
+            return pd.Timestamp(x) if isinstance(x, np.datetime64) else pd.Timedelta(x)
+        except (ValueError, OverflowError): # out of pandas' bounds, or a year/month duration
+            return x
+    return x.item() if isinstance(x, np.number) else x
 
 
 def eq(x, y):
